@@ -166,3 +166,27 @@ Proof.
   intros H; inversion H; subst hs. apply hops_chunks_nonempty in E.
   destruct l; [congruence|cbn; lia].
 Qed.
+
+(** [pred_wildb] is exactly "every hop satisfies the predicate"; it is the model's
+    [pred_is_wildcard] ([HopPredicate::is_wildcard]). *)
+Lemma pred_wildb_model p : pred_is_wildcard p = pred_wildb p.
+Proof. unfold pred_is_wildcard, pred_wildb, ifs_is_wildcard. destruct (p_ifs p); reflexivity. Qed.
+
+Lemma pred_wildb_iff p : pred_wildb p = true <-> forall h, hop_sat p h.
+Proof.
+  unfold pred_wildb, hop_sat, id_sat. split.
+  - intros H h. rewrite !andb_true_iff in H. destruct H as ((Hi & Ha) & Hf).
+    split; [lia|]. split.
+    + destruct (p_asn p); [lia|exact I].
+    + destruct (p_ifs p); cbn [ifs_sat]; unfold if_sat; lia.
+  - intros H.
+    (* a hop that differs from the predicate in every field *)
+    set (a0 := match p_asn p with Some a => a + 1 | None => 1 end).
+    set (i0 := match p_ifs p with IfAny => 1 | IfEither a => a + 1 | IfBoth i _ => i + 1 end).
+    set (e0 := match p_ifs p with IfAny => 1 | IfEither a => a + 1 | IfBoth _ e => e + 1 end).
+    destruct (H (mkHop (p_isd p + 1) a0 i0 e0)) as (Hi & Ha & Hf). cbn [h_isd h_asn h_in h_out] in *.
+    rewrite !andb_true_iff. refine (conj (conj _ _) _).
+    + lia.
+    + unfold a0 in Ha. destruct (p_asn p); [lia|reflexivity].
+    + unfold i0, e0 in Hf. destruct (p_ifs p); cbn [ifs_sat] in Hf; unfold if_sat in Hf; [reflexivity|lia|lia].
+Qed.
